@@ -21,11 +21,14 @@ def compiles(cmd, ctx):
     bad = [b for b in st if not (b.get("generated") and b.get("compiled"))]
     info = {"batches": len(st), "schemas": sum(b["schemas"] for b in st), "lines": sum(b["lines"] for b in st),
             "generate_s": round(sum(b["gen_s"] for b in st), 2), "build_s": round(sum(b["build_s"] for b in st), 2)}
+    adj = [b for b in st if b.get("adj")]
+    if adj:
+        info["adjunct_variant"] = {"batches": len(adj), "schemas": sum(b["schemas"] for b in adj), "overrides": adj[0]["adj"]}
     if bad:
         # the compiler's (or generator's) first complaint leads, so that it survives into the replay file's
         # broken_obligations; the cases of the batch come back "nobuild" and are the failing inputs
         msg = [l for l in bad[0].get("log", "").split("\n") if l and not l.startswith(("go build:", "#"))]
-        info = dict([("compiler", (msg[0] if msg else bad[0].get("log", ""))[:280]), ("batch", bad[0]["dir"])] + list(info.items()))
+        info = dict([("compiler", (msg[0] if msg else bad[0].get("log", ""))[:280]), ("batch", bad[0]["dir"]), ("adjunct_cfg", bad[0].get("adj") or "union memory layouts only")] + list(info.items()))
         info["log"] = bad[0].get("log", "")[:1500]
     return st, [{"name": name, "ok": not bad, "info": info}]
 
